@@ -189,11 +189,10 @@ PROPS["C04"] = dict(
     level_text="unbounded deductive proof that get_stability_count is (depth of the block) - (greatest depth of a competing block at the same height), that the walk applies "
                "exactly the longest prefix of the served chain whose blocks all have stability count >= c and names its last block and height as tip, that a c larger "
                "than the chain is refused with MinConfirmationsTooLarge{given, max}, and (lemma) that on a fork-free chain of L blocks the cut is after block L-c (tip at H-c+1)",
-    level_note="the rows produced by block_hashes_with_depths_by_heights are an ASSUMED input (uninterpreted rows_spec; nested &mut Vec<Vec<_>> recursion with resize); "
-               "that the applied blocks yield the ledger at the cut is C01's unverified refinement; fewer than 2^31 unstable blocks",
+    level_note="block_hashes_with_depths_by_heights(_helper) is PROVED (fragment rows.tpl) to return, per distance from the anchor, the blocks at that distance with "
+               "the length of their longest descendant chain; that the applied blocks yield the ledger at the cut is C01's unverified refinement; tree height < 2^31",
     explanation="R4 (enumerate => counter) and R8 (statement slice) rewrites are listed per function in the evidence.",
     unverified_links=[
-        "BlockTree::block_hashes_with_depths_by_heights(_helper): row h = blocks at distance h with the length of their longest descendant chain (assumed)",
         "AddressUtxoSet::apply_block / into_iter and the page cut (closure pipelines)",
     ],
     assumptions=COMMON_ASSUMPTIONS + ["depths < 2^31 (the repo casts them to i32)"],
